@@ -217,8 +217,12 @@ func (d *driver) driveRoots(ntraces, nops int) {
 					off, ln = rng.Intn(cur+2), rng.Intn(cur+2)
 				}
 				d.exchange(Act{Op: "BeginRoots", S: 1, Off: off, Len: ln, Pf: flaw(rng, 5, pfClasses...), Sf: flaw(rng, 6, sfClasses...)}, "", "", pick(rng, "finish", "finish", "finish", "abort1"))
-			case x < 96:
+			case x < 95:
 				tr.do(Act{Op: "Truncated", S: 1})
+			case x < 98: // the chain subscriber: an EARLIER signed revision gets mined
+				tr.do(Act{Op: "Confirm", S: 1})
+				d.res.Count("older_revisions_confirmed", tr.ad.Confirms)
+				tr.ad.Confirms = 0
 			default:
 				d.exchange(Act{Op: "BeginLatest", S: 1}, "", "", "finish")
 			}
@@ -396,8 +400,10 @@ func (d *driver) driveAccounts(ntraces, nops int) {
 				} else if ok, _ := d.e.SS.HasSector(Sector(nextSec).root); ok {
 					stored = append(stored, nextSec) // paid and stored although the renter hung up
 				}
-			case x < 96:
+			case x < 94:
 				d.exchange(Act{Op: "BeginBalance", S: 1, A: acc()}, "", "", "finish")
+			case x < 98: // an upload abandoned inside the message body
+				tr.do(Act{Op: "PartialWrite", S: 1, A: acc(), Sec: 1, Units: 1, Part: rng.Intn(4)})
 			default:
 				tr.do(Act{Op: "Truncated", S: 1})
 			}
